@@ -13,6 +13,8 @@ impl Poisson {
         // quick and dirty naive factorial: k!
         let mut denominator = 1.0;
         for x in 1..(njobs + 1) {
+            #[cfg(feature = "verif")]
+            crate::verif_hooks::tick("poisson::arrival_probability");
             denominator *= x as f64;
         }
         let mean = Time::from(delta) as f64 * self.rate;
@@ -74,6 +76,8 @@ impl ArrivalBound for ApproximatedPoisson {
             let mut cumulative_prob = 0.0;
             let mut njobs = 0;
             loop {
+                #[cfg(feature = "verif")]
+                crate::verif_hooks::tick("poisson::number_arrivals");
                 cumulative_prob += self.poisson.arrival_probability(delta, njobs);
                 if cumulative_prob + self.epsilon >= 1.0 {
                     break;
